@@ -1547,9 +1547,13 @@ func (s *Store) processLTXStreamFrame(ctx context.Context, frame *LTXStreamFrame
 	// remote lock must have expired or been released so we can clear it locally.
 	//
 	// We also hold the local WRITE lock so a local write cannot be in-progress.
-	if haltLock := db.RemoteHaltLock(); haltLock != nil {
+	//
+	// Transactions up to the position the lock was granted at are not a sign of
+	// that: the replica is still catching up to the primary's position, which
+	// AcquireRemoteHaltLock waits for after it has stored the lock.
+	if haltLock := db.RemoteHaltLock(); haltLock != nil && hdr.MinTXID > haltLock.Pos.TXID {
 		TraceLog.Printf("[ProcessLTXStreamFrame.Unhalt(%s)]: replica holds HALT lock but received LTX file, unsetting HALT lock", db.Name())
-		if err := db.UnsetRemoteHaltLock(ctx, haltLock.ID); err != nil {
+		if err := db.unsetRemoteHaltLock(ctx, haltLock.ID, true); err != nil {
 			return fmt.Errorf("release remote halt lock: %w", err)
 		}
 	}
